@@ -164,10 +164,15 @@ func runC14(t *testing.T, sc scenario) error {
 	sc.Reps = 1
 	// canaries: issued after the sequence, inside the same broker
 	var canErr error
-	ctx, err := newContext(&sc, &bytes.Buffer{})
+	ctx, err := cachedContext(&sc)
 	if err != nil {
 		return err
 	}
+	defer func() {
+		if canErr != nil {
+			dropContext(&sc)
+		}
+	}()
 	h := runScenario(t, ctx, &sc, func(ctx *BrokerContext, mux http.Handler) {
 		rec, pan := serve(mux, "GET", "/robots.txt", nil, nil, "")
 		if pan != "" || rec.Code != 200 || rec.Body.String() != "User-agent: *\nDisallow: /\n" {
@@ -185,6 +190,7 @@ func runC14(t *testing.T, sc scenario) error {
 		}
 	})
 	if err := checkHTTP(h); err != nil {
+		dropContext(&sc)
 		return err
 	}
 	return canErr
@@ -263,15 +269,17 @@ func runLegacy(t *testing.T, c legacyCase) error {
 	var hs [2]*history
 	for n, door := range []string{"legacy", "post"} {
 		sc := build(door)
-		ctx, err := newContext(&sc, &bytes.Buffer{})
+		ctx, err := cachedContext(&sc)
 		if err != nil {
 			return err
 		}
 		hs[n] = runScenario(t, ctx, &sc, nil)
 		if err := checkBounded(hs[n]); err != nil {
+			dropContext(&sc)
 			return fmt.Errorf("%s request: %v", door, err)
 		}
 		if err := checkNoGhosts(hs[n]); err != nil {
+			dropContext(&sc)
 			return fmt.Errorf("%s request: %v", door, err)
 		}
 	}
@@ -367,15 +375,17 @@ func runAMPEquiv(t *testing.T, c ampCase) error {
 		} else {
 			sc.Events = append(sc.Events, event{At: sec, Kind: "http", Method: "POST", Path: "/client", Body: c.Body})
 		}
-		ctx, err := newContext(&sc, &bytes.Buffer{})
+		ctx, err := cachedContext(&sc)
 		if err != nil {
 			return err
 		}
 		h := runScenario(t, ctx, &sc, nil)
 		if err := checkBounded(h); err != nil {
+			dropContext(&sc)
 			return fmt.Errorf("%s door: %v", door, err)
 		}
 		if err := checkNoGhosts(h); err != nil {
+			dropContext(&sc)
 			return fmt.Errorf("%s door: %v", door, err)
 		}
 		r := h.Res[len(h.Res)-1]
